@@ -347,7 +347,16 @@ class Verdict:
                                      indent=1, default=str))
         self.violations.append({"signature": signature, "detail": detail, "replay": str(fn)})
 
+    def note(self, signature, detail):
+        """An observation OUTSIDE the property's quantifier (a callback that throws, a thread that cannot be created, ...): the
+        specification has grown to cover it, but a deviation there is not a violation of the listed property. Printed as
+        SPEC-NOTE, never counted, never changes the exit code."""
+        self.spec_notes = getattr(self, "spec_notes", {})
+        self.spec_notes.setdefault(signature, str(detail)[:400])
+
     def finish(self):
+        for sig, det in list(getattr(self, "spec_notes", {}).items())[:6]:
+            log("SPEC-NOTE property=%s (outside the property's quantifier; no verdict) %s: %s" % (self.pid, sig, det))
         for kid, h in self.known_hits.items():
             log("KNOWN-FINDING: property=%s %s (%s; %d occurrence(s) this run)" % (self.pid, h["k"]["what"], kid, h["n"]))
         seen = set()
